@@ -26,9 +26,15 @@ def cut_classes(stream, segs):
         if any(b == i for b in bs):
             cls.add('before-delimiter')
         i = stream.find(DELIM, i + 1)
-    for b in bs:
+    ends = bs[1:] + [len(stream)]
+    for b, e in zip(bs, ends):
         if b < len(stream) and (stream[b] & 0xC0) == 0x80:
             cls.add('inside-multibyte-char')
+            # the read that BEGINS inside the character also carries (the beginning of) a delimiter: the case _delimiter_check
+            # cannot handle on the unchanged tree (it decodes that read on its own)
+            d = stream.find(DELIM, b)
+            if 0 <= d < e:
+                cls.add('multibyte-read-holds-delimiter')
         j = stream.rfind(b'</rpc-reply>', 0, b + 12)
         if j >= 0 and j < b < j + 12:
             cls.add('inside-reply-end-tag')
@@ -180,7 +186,7 @@ class C18(Check):
             if problem:
                 if not good:
                     key = 'C18:repeated-tag-name-on-a-path'
-                elif io['error'] == 'UnicodeDecodeError' or 'inside-multibyte-char' in cls:
+                elif f is not None and 'multibyte-read-holds-delimiter' in cls:
                     key = 'C18:read-boundary-inside-multibyte-character'
                 elif cls & {'inside-delimiter', 'before-delimiter', 'inside-reply-end-tag'}:
                     key = 'C18:read-boundary-in-reply-end-or-delimiter'
